@@ -1,2 +1,2 @@
-(* tools/py2v translator FAILED on the current source: SVD.lstsq: s_inv initialisation (line 74) *)
+(* tools/py2v translator FAILED on the current source: chain rule: expression 'self.merit_function._get_x_limits()' not recognised (line 480) *)
 Definition translator_failed_no_tables : bool := true.
